@@ -351,11 +351,6 @@ func checkConfig(t *core.T, c []int) {
 	if t.Protect("build", desc, func() { ast0 = build(c) }) {
 		return
 	}
-	s0 := schema.NewSchemaFromAST(ast0)
-	want, werr := resolveCanon(s0)
-	if werr == nil {
-		t.Nontrivial()
-	}
 	// degenerate declarations with a recorded finding get a signature of their own class
 	class := desc
 	switch {
@@ -363,6 +358,16 @@ func checkConfig(t *core.T, c []int) {
 		class = "appliesTo-with-empty-principal-and-resource-lists"
 	case c[8] == 3:
 		class = "enum-without-values"
+	}
+	checkAST(t, desc, class, ast0)
+}
+
+// checkAST runs every round trip of the property on one schema AST.
+func checkAST(t *core.T, desc, class string, ast0 *sast.Schema) {
+	s0 := schema.NewSchemaFromAST(ast0)
+	want, werr := resolveCanon(s0)
+	if werr == nil {
+		t.Nontrivial()
 	}
 	sig := func(kind string) string { return kind + ":" + class }
 	// --- Cedar text
@@ -480,6 +485,43 @@ func checkConfig(t *core.T, c []int) {
 	t.SampleF(func() string { return desc + ": " + keepT })
 }
 
+// sizes: n declarations of every kind, named x0..x(n-1) (ten and more names sort differently
+// as text and as numbers), for n across the usual thresholds.
+func sizedSchemas() *core.Family {
+	sizes := []int{0, 1, 2, 9, 10, 11, 12, 16, 17, 33, 64, 65, 130}
+	return &core.Family{
+		Name: "schema-sizes",
+		Desc: fmt.Sprintf("schemas with n entity types (each listing all earlier ones as parents), n attributes, n common types, n actions in one group, n enum values and n namespaces, for n in %v: every round trip of the property", sizes),
+		N:    int64(len(sizes)),
+		Run: func(t *core.T, i int64) {
+			n := sizes[i]
+			ents, acts, cts := sast.Entities{}, sast.Actions{}, sast.CommonTypes{}
+			shape := sast.RecordType{}
+			var parents []sast.EntityTypeRef
+			var enumVals []types.String
+			nss := sast.Namespaces{}
+			for k := 0; k < n; k++ {
+				nm := fmt.Sprintf("x%d", k)
+				shape[types.String(nm)] = sast.Attribute{Type: sast.Type(types.Path("T" + nm)), Optional: k%2 == 1}
+				cts[types.Ident("T"+nm)] = sast.CommonType{Type: sast.Long()}
+				ents[types.Ident("E"+nm)] = sast.Entity{ParentTypes: append([]sast.EntityTypeRef{}, parents...)}
+				parents = append(parents, sast.EntityTypeRef("E"+nm))
+				acts[types.String(nm)] = sast.Action{Parents: []sast.ParentRef{sast.ParentRefFromID("grp")}, AppliesTo: &sast.AppliesTo{Principals: []sast.EntityTypeRef{"Big"}, Resources: []sast.EntityTypeRef{"Big"}}}
+				enumVals = append(enumVals, types.String(nm))
+				nss[types.Path("N"+nm)] = sast.Namespace{Entities: sast.Entities{"Q": sast.Entity{}}}
+			}
+			ents["Big"] = sast.Entity{ParentTypes: parents, Shape: shape, Tags: sast.Set(sast.String())}
+			acts["grp"] = sast.Action{}
+			s := &sast.Schema{Entities: ents, Actions: acts, CommonTypes: cts, Namespaces: nss}
+			if n > 0 {
+				s.Enums = sast.Enums{"Color": sast.Enum{Values: enumVals}}
+			}
+			checkAST(t, fmt.Sprintf("sizes n=%d", n), fmt.Sprintf("sizes n=%d", n), s)
+			t.Sample(fmt.Sprintf("n=%d", n))
+		},
+	}
+}
+
 func Check() *core.Check {
 	return &core.Check{
 		ID:        "C17",
@@ -516,7 +558,7 @@ func Check() *core.Check {
 				fams = append(fams, &core.Family{Name: fmt.Sprintf("%d-deviations", k), Desc: fmt.Sprintf("every configuration with exactly %d of %d slots changed to each of its alternatives (%d schemas)", k, len(slots), len(cfgs)), N: int64(len(cfgs)),
 					Run: func(t *core.T, i int64) { checkConfig(t, cfgs[i]) }})
 			}
-			return fams
+			return append(fams, sizedSchemas())
 		},
 	}
 }
